@@ -56,6 +56,7 @@ class LeanStatus:
         self.audit = {}        # theorem name -> (kind, module, axioms list)
         self.forbidden_hits = []
         self.consts_ok = True
+        self.leanchecker = None
 
 
 def _run(cmd, cwd=None, timeout=3600, inp=None):
@@ -78,7 +79,7 @@ def generate_consts():
     return True, ""
 
 
-def lean_build_and_audit(pid):
+def lean_build_and_audit(pid, recheck=False):
     st = LeanStatus()
     lock = os.path.join(LEAN, ".build.lock")
     import fcntl
@@ -101,6 +102,10 @@ def lean_build_and_audit(pid):
                             st.forbidden_hits.append(f"{os.path.relpath(p, LEAN)}:{i}: {line.strip()[:120]}")
         if st.build_ok:
             st.audit = _audit_cached(pid)
+            if recheck:
+                # thorough tier: the toolchain's independent re-checker replays the compiled proofs of this property
+                rc, log = _run(["lake", "env", "leanchecker", f"Pymc.Props.{pid}"], cwd=LEAN, timeout=3600)
+                st.leanchecker = "ok" if rc == 0 else "FAILED: " + log[-500:]
     return st
 
 
@@ -266,7 +271,7 @@ class Ctx:
             st.audit = None
             self.lean = st
             return st
-        self.lean = lean_build_and_audit(self.pid)
+        self.lean = lean_build_and_audit(self.pid, recheck=self.thorough)
         self.driver = Driver()
         return self.lean
 
@@ -295,6 +300,8 @@ class Ctx:
             problems.append("forbidden construct: " + h)
         if not st.consts_ok:
             problems.append("constant extraction failed")
+        if st.leanchecker not in (None, "ok"):
+            problems.append("leanchecker: " + st.leanchecker)
         return names, discharged, problems
 
     # -------------------------------------------------------------------------------------------
@@ -376,6 +383,7 @@ class Ctx:
             "distribution": dict(sorted(self.hist.items())),
             "theorems": names,
             "obligation_problems": problems,
+            "leanchecker": getattr(self.lean, "leanchecker", None),
             "correspondence_disagreements": len(self.disagreements),
             "known_findings_hit": {k: v["n"] for k, v in self.known_hits.items()},
         }
